@@ -3,7 +3,7 @@ CONSTANTS
   Minerals = {a, b}
   Files = {f1}
   Postfixes = {}
-  Configs <- FlowConfigs
+  Configs <- FaultConfigs
   Seeds = {1, 2}
   Textures = {"random", "clustered"}
   Flows = {"ss_xz", "gen3d", "pure_xy"}
